@@ -5,7 +5,7 @@ import common, zoo as zoolib, filelevel, workloads, shapes
 from common import Pair, proof_stage, rebuild_tools, build_pqh, build_zoo, Lock, TRUSTED_BASE
 
 MODULE = "PQ.Props.C15"
-THEOREMS = []
+THEOREMS = ["PQ.C15." + t for t in ("goodName", "structOf_regenerates", "parse_regenerated", "regenerate", "regenerate_written")]
 PRIMS6 = ["int32", "int64", "float32", "float64", "bool", "string"]
 
 
@@ -19,7 +19,9 @@ def run(chk):
     thorough = chk.tier == "thorough"
     cov = {"steps": {}}
     allf = [f for f in shapes.corpus(4) if "m" not in shapes.name_of(f)]
-    forests = allf if thorough else [f for f in allf if sum(1 for c in shapes.name_of(f) if c in "ro") <= 3] + allf[::11]
+    two_groups = [f for f in allf if shapes.name_of(f).count("(") >= 2]      # groups of differing optionality need >= 4 nodes
+    forests = allf if thorough else [f for f in allf if sum(1 for c in shapes.name_of(f) if c in "ro") <= 3] + two_groups + allf[::11]
+    forests = [f for i, f in enumerate(forests) if f not in forests[:i]]
     items = [("t%04d" % i, shapes.render(f, "t%04d" % i, PRIMS6), "T") for i, f in enumerate(forests)]
     names = {sid: shapes.name_of(f) for (sid, _, _), f in zip(items, forests)}
     srcs = {sid: src for sid, src, _ in items}
